@@ -112,6 +112,8 @@ func (e *Env) smokeSizeRule() func(*plan.Op, *plan.Res) string {
 		switch {
 		case ok && (r.Err != nil || out == ""):
 			return fmt.Sprintf("under concurrency %s with an accepted size (%d/%d) returned %s and err=%s", fnName(op.Fn), len(op.Entropy()), op.N, preview(out), errText(r.Err))
+		case ok && op.Fn == "enc" && len(strings.Fields(out)) != len(op.Entropy())*3/4, ok && op.Fn == "new" && len(strings.Fields(out)) != int(op.N):
+			return fmt.Sprintf("under concurrency %s with an accepted size (%d/%d) succeeded with a mnemonic of %d words", fnName(op.Fn), len(op.Entropy()), op.N, len(strings.Fields(out)))
 		case !ok && (errClassOf(r.Err) != sentinel || out != ""):
 			return fmt.Sprintf("under concurrency %s with a rejected size (%d/%d) returned %s and error class %s (%s)", fnName(op.Fn), len(op.Entropy()), op.N, preview(out), errClassOf(r.Err), errText(r.Err))
 		}
